@@ -329,6 +329,8 @@ def c07(tier, sc):
     pred += [dict(c, f="dec") for c in xss_gen(sc, d, rep, "dec", "dec", vgen.b("&#xX;019aFg"), 4, templates=decoder_ladders())]
     url = xss_gen(sc, d, rep, "url", "url")
     pred += [{"in": c["in"], "f": "url", "r": [1 if c["pred"] else 0]} for c in url[::3]]
+    wide = xss_gen(sc, d, rep, "urlwide", "urlwide")
+    pred += [{"in": c["in"], "f": "url", "r": [1 if c["pred"] else 0]} for c in wide]
     res = vlib.harness_map(sc, vh, "xss-pred", [{"f": c["f"], "in": c["in"]} for c in pred])
     npred = 0
     for c, r in zip(pred, res):
